@@ -194,6 +194,10 @@ func ruleC20(w *World) {
 	// R4: no dependence on the word size
 	w.floor("C20.R4", 1)
 	w.ruleWordSize("C20.R4", def)
+	// R5: code selected by build constraints reads only the bytes it is given: no slice in a build-tagged file of hash/
+	// and random/ is re-sliced past its length (what lies beyond is stale, history-dependent memory that the sibling
+	// implementation never looks at) — the slice-extension rule of C09.R2(f), per configuration
+	w.ruleTaggedSliceExtensions("C20.R5", repo)
 }
 
 func isTestHelperDecl(fd *ast.FuncDecl) bool {
@@ -576,5 +580,42 @@ func (w *World) ruleWordSize(rule string, def *World) {
 	w.stat("word_size_conversions", n)
 	if n == 0 {
 		w.ok(rule, "word-size/none", token.NoPos, "no conversion of a 64-bit integer to a word-sized type in hash/ and random/")
+	}
+}
+
+
+func (w *World) ruleTaggedSliceExtensions(rule, repo string) {
+	for _, cfg := range []string{"purego", "default"} {
+		wd, err := load(LoadCfg{Name: cfg, Dir: repo, Env: mustCfg(cfg, repo).Env, Flags: mustCfg(cfg, repo).Flags, Pats: []string{"./hash", "./random"}})
+		if err != nil {
+			w.undecided(rule, "tagged-files@"+cfg, token.NoPos, err.Error())
+			continue
+		}
+		wd.out = w.out
+		saved := gWorld
+		gWorld = wd
+		var fns []*ssa.Function
+		files := map[string]bool{}
+		for _, pp := range []string{hashPath, randomPath} {
+			for _, fn := range wd.srcFuncs(pp) {
+				file := wd.Fset.Position(fn.Pos()).Filename
+				if _, tagged := fileConstraint(file); tagged && !strings.HasSuffix(file, "_test.go") {
+					fns = append(fns, fn)
+					files[filepath.Base(file)] = true
+				}
+			}
+		}
+		before := len(w.out.Obligations)
+		n := wd.ruleSliceExtensions(rule, fns)
+		for i := before; i < len(w.out.Obligations); i++ {
+			w.out.Obligations[i].Key += "@" + cfg
+		}
+		gWorld = saved
+		var fl []string
+		for f := range files {
+			fl = append(fl, f)
+		}
+		sort.Strings(fl)
+		w.check(len(fns) > 0, rule, "tagged-files@"+cfg, token.NoPos, fmt.Sprintf("%d functions in build-constrained files %v examined, %d slice bounds derived from the slice's own length", len(fns), fl, n), "no build-constrained file found in hash/ or random/ (anchor moved?)")
 	}
 }
